@@ -22,6 +22,7 @@ CONSTANTS
   IsoMatVer <- MCIsoMatVer
   IsoAdsVer <- MCIsoAdsVer
   IsoClass <- MCIsoClass
+  Traits <- MCTraits
 CHECK_DEADLOCK FALSE
 CONSTRAINT DepthBound
 VIEW ImplView
